@@ -521,7 +521,24 @@ def X13(ctx: Ctx, mode: str = 'access') -> RuleResult:
             return (t.target, t.value)
         return ()
 
+    def lift(t: Term) -> Term:
+        """a conditional value tested several times in one boolean expression (x = a if c else b; x.p and x.q): the
+        condition is lifted out, so that each arm is read with its own value"""
+        if isinstance(t, Op) and t.op in ('and', 'or', 'not'):
+            args = [lift(a) for a in t.args]
+            first = next((a for a in args if isinstance(a, Ite)), None)
+            if first is not None and sum(1 for a in args if isinstance(a, Ite) and a.test == first.test) >= 1 and len(repr(t)) < 4000:
+                ta = Op(t.op, tuple(a.a if isinstance(a, Ite) and a.test == first.test else a for a in args))
+                tb = Op(t.op, tuple(a.b if isinstance(a, Ite) and a.test == first.test else a for a in args))
+                return Ite(first.test, lift(ta), lift(tb))
+            return Op(t.op, tuple(args))
+        if isinstance(t, Attr) and isinstance(t.base, Ite):
+            return Ite(t.base.test, lift(Attr(t.base.a, t.name)), lift(Attr(t.base.b, t.name)))
+        return t
+
     def check(t: Term, facts: List, fi: FunctionInfo, line: int):
+        if isinstance(t, (Op, Attr)):
+            t = lift(t)
         if isinstance(t, Op) and t.op in ('and', 'or'):
             f_ = list(facts)
             for a in t.args:
@@ -679,7 +696,7 @@ def X2(ctx: Ctx) -> RuleResult:
                 t = node.test
                 if isinstance(t, ast.Compare) and len(t.ops) == 1 and isinstance(t.ops[0], ast.Eq) and isinstance(t.comparators[0], ast.Constant) and isinstance(t.comparators[0].value, str) and ast.unparse(t.left).endswith('.name'):
                     check_body(node.body, t.comparators[0].value, fi, fi.qualname)
-    r.floor('argument subscripts', n, 25)
+    r.floor('argument subscripts', n, 16)
     return r
 
 
